@@ -9,7 +9,7 @@ Line-protocol driver for M10 (family `sync`).
   `have b1 … bk`         the node's best chain above genesis, oldest first      → `tip t`
   `add b1 … bk`          `Manager.AddBlocks` directly                          → `err e tip t`
   `sync H… B…`           one `syncLoop` iteration; `H` = `h:eof | h:err | h:<remaining>:<id,id,…>`,
-                         `B` = `b:<cp>:<blocks>` with `<cp>` = `-` or `<blk>.<isV2><onePayout><commitOk><genuine>`
+                         `B` = `b:<cp>:<blocks>` with `<cp>` = `-` or `<blk>.<isV2><onePayout><commitOk><genuine>[<noV1>]`
                          and `<blocks>` = `-` (RPC failed) or `id,id,…` (`e` = empty list)
                                                                                 → `dec d tip t synced s asked id,… reqs k` (`reqs -` after a ban)
   `rhdr h`               `RelayV2Header`                                       → `dec d`
@@ -67,7 +67,7 @@ def flag (s : String) (i : Nat) : Bool := (s.toList.getD i '0') == '1'
 def parseCp (w : String) : Option (Option CpResp) :=
   if w = "-" then some none else
   match w.splitOn "." with
-  | [b, f] => do some (some ⟨← nat? b, flag f 0, flag f 1, flag f 2, flag f 3⟩)
+  | [b, f] => do some (some ⟨← nat? b, flag f 0, flag f 1, flag f 2, flag f 3, f.length < 5 || flag f 4⟩)
   | _ => none
 
 def parseB (w : String) : Option BResp :=
